@@ -24,6 +24,7 @@ Definition emit_check (m : ubehav) (v : value) : outcome unit :=
 Definition iter_items (m : ubehav) (iv : value) : outcome (list value) :=
   match iv with
   | VList l => Ok l
+  | VStr _ t => Ok (map (fun ch => VStr false [ch]) t)     (* a string iterates over its characters, in every mode *)
   | VUndef => if u_strictish m then Err E_UndefinedError else Ok []
   | VSilent => Ok []
   | _ => Err E_InvalidOperation
